@@ -5,6 +5,7 @@ import GB.C20.ProofsGwMain
 import GB.C20.ProofsStMain
 import GB.C20.ProofsVerb
 import GB.C20.ProofsLegalMain
+import GB.C20.ProofsStSoundMain
 import GB.Generated.Facts
 /-
   C20 — property theorems. Helper lemmas live in Proofs*.lean.
@@ -170,10 +171,8 @@ example : illegalChar [47, 97, 58, 98, 32, 99] = true := by decide
 /-! ### strict parser -/
 
 /-
-  Full statement:  C20_strict_exact : (∃ T, stParse s = .ok T) ↔ (∃ t, Derives s t)
-  Proved: the direction ⇐ (every string of the grammar is accepted, with the grammar's verb).
-  Missing: ⇒ (acceptance implies derivability); same missing argument as for gwbased. The run checks it
-  on every case line (`st`): the implementation and the model must reject whatever the recogniser rejects.
+  The direction ⇐ of `C20_strict_exact` (every string of the grammar is accepted, with the grammar's verb).
+  Kept under its original name; the full equivalence is `C20_strict_exact` below.
 -/
 theorem C20_strict_exact_partial (s : Bytes) (t : Tmpl) (h : Derives s t) :
     ∃ T, stParse s = .ok T ∧ T.verb = t.verbStr ∧ T.tmpl = s := by
@@ -181,6 +180,25 @@ theorem C20_strict_exact_partial (s : Bytes) (t : Tmpl) (h : Derives s t) :
   obtain ⟨T, h1, h2, h3⟩ := stParse_render t hw
   rw [hr] at h1 h3
   exact ⟨T, h1, h2, h3⟩
+
+/-- **Strict soundness** (the direction ⇒): whatever the strict parser accepts is derivable, and the verb it
+    returns is the verb the grammar assigns. The proof threads the synchronisation invariant `ValidE`
+    (ProofsSync.lean: the remaining tokens are what the tokenizer emits from a token boundary in the state the
+    parser function expects) through `segments` / `segment` / `variable` / `fieldPath`. -/
+theorem C20_strict_sound (s : Bytes) (T : StTemplate) (h : stParse s = .ok T) :
+    ∃ t, Derives s t ∧ T.verb = t.verbStr := by
+  obtain ⟨t, h1, h2, h3⟩ := stParse_sound s T h
+  exact ⟨t, ⟨h1, h2⟩, h3⟩
+
+/-- **The strict parser accepts exactly the grammar's language**, for all byte strings. -/
+theorem C20_strict_exact (s : Bytes) : (∃ T, stParse s = .ok T) ↔ (∃ t, Derives s t) := by
+  constructor
+  · rintro ⟨T, h⟩
+    obtain ⟨t, ht, _⟩ := C20_strict_sound s T h
+    exact ⟨t, ht⟩
+  · rintro ⟨t, ht⟩
+    obtain ⟨T, h, _⟩ := C20_strict_exact_partial s t ht
+    exact ⟨T, h⟩
 
 /-- the strict parser rejects what has no leading slash or contains the in-band eof byte -/
 theorem C20_strict_rejects_partial (s : Bytes) (h : noLeadingSlash s = true ∨ (0 : UInt8) ∈ s) :
